@@ -86,9 +86,9 @@ func c11Content(c *core.Ctx) string {
 			line = c11InertLines[c.Rng.Intn(len(c11InertLines))]
 		case r < 16:
 			line = c11LongLine(c, []int{4094, 4095, 4096, 4097, 8191, 8192, 8193, 10000}[c.Rng.Intn(8)])
-			if c.Rng.Intn(12) == 0 {
+			if c.Rng.Intn(40) == 0 {
 				// Beyond the 64 KiB token limit of the standard line scanner.
-				line = c11LongLine(c, []int{65535, 65536, 65537, 70000, 131073}[c.Rng.Intn(5)])
+				line = c11LongLine(c, []int{65535, 65536, 65537, 70000}[c.Rng.Intn(4)])
 				c.Event("lines_longer_than_64k", 1)
 			}
 		case r == 16:
@@ -219,7 +219,7 @@ func c11IDs(c *core.Ctx, n int) []int {
 
 func c11Run(c *core.Ctx, idx int) {
 	nl := 1 + c.Rng.Intn(4)
-	many := c.Rng.Intn(50) == 0
+	many := c.Rng.Intn(120) == 0
 	if many {
 		// More lists than an 8-bit counter holds (users of DNS filters do load
 		// hundreds of small lists).
@@ -505,7 +505,7 @@ func init() {
 	core.Register(&core.Prop{
 		ID:    "C11",
 		Level: "exploration",
-		Rule: "per case 1..4 lists with distinct ids from {0, 1, -1, MinInt32, MaxInt32, random int32}, contents assembled from valid rules of every kind, comments, blanks and rejects with LF / CRLF / mixed / lone CR, with and without a final newline, BOM, NUL bytes, multi-byte characters placed on the 4 KiB buffer boundary, lines of 4094..10000 bytes (one long line in twelve: 65535..131073 bytes), one storage in fifty with 257..296 lists, one file list in six opened on a prefix of its content that grows to the full content before the first scan, IgnoreCosmetic on/off, and a second list with identical offsets but different content; " +
+		Rule: "per case 1..4 lists with distinct ids from {0, 1, -1, MinInt32, MaxInt32, random int32}, contents assembled from valid rules of every kind, comments, blanks and rejects with LF / CRLF / mixed / lone CR, with and without a final newline, BOM, NUL bytes, multi-byte characters placed on the 4 KiB buffer boundary, lines of 4094..10000 bytes (one long line in forty: 65535..70000 bytes), one storage in 120 with 257..296 lists, one file list in six opened on a prefix of its content that grows to the full content before the first scan, IgnoreCosmetic on/off, and a second list with identical offsets but different content; " +
 			"for the String-backed and the File-backed storage: scan sequence == line-by-line reference parse (kind, text, list id, index), indexes injective, RetrieveRule(idx) == scanned rule cold and warm in random order, cache size, and engines over both backings answer a request sample identically; non-trivial = storage with at least one rule; distinct by content",
 		Assumptions: []string{
 			"scan completely, then retrieve (the two readers of a FileRuleList share one file offset)",
